@@ -83,8 +83,11 @@ def run(ctx):
         recs = hist.run_histories(ctx, res, 240 if thorough else 44, 10 if thorough else 6, store_kinds=kinds, on_record=on_record, at_step=at_step)
         # directed: the evaluated function is itself kept (top-level keep) and keeps other paths inside; edits followed by
         # reverts bring back signatures the store already holds - the inner paths must follow
-        recs += hist.run_histories(ctx, res, 60 if thorough else 14, 5, store_kinds=("memory", "local"), on_record=on_record, at_step=at_step,
+        recs += hist.run_histories(ctx, res, 60 if thorough else 14, 5, store_kinds=("memory", "local", "local_lru"), on_record=on_record, at_step=at_step,
                                    edit_kinds=["var", "revert", "body", "revert", "const_arg", "revert"], entry_kind="keep")
+        # ... and the same edit / revert histories with dds.eval as the entry, through the object cache
+        recs += hist.run_histories(ctx, res, 40 if thorough else 8, 5, store_kinds=("local_lru",), on_record=on_record, at_step=at_step,
+                                   edit_kinds=["var", "revert", "body", "revert"])
         # the same call kept under several paths (aliases) and the same path kept by several parents, on every store kind incl.
         # the DBFS store over the fake dbutils
         recs += hist.run_histories(ctx, res, 40 if thorough else 10, 4, store_kinds=("dbfs", "memory", "local", "dbfs"), on_record=on_record, at_step=at_step,
